@@ -202,6 +202,9 @@ func (g *G) genAction(f *FlowSpec, nd *nodeDraft, loc J) J {
 			media := []string{"image/jpeg:http://x.com/cat.jpg", "application/pdf:http://x.com/" + strings.Repeat("y", 2100), "image/jpeg:http://x.com/@(repeat(\"z\", 2100)).jpg",
 				"@fields.nick", "video/mp4:http://x.com/" + strings.Repeat("v", 2023)}[t.Weighted("tplmedia", 4, 1, 1, 1, 1)]
 			vars := []string{"@contact.name", g.tmpl(false), "Yes", media}
+			if t.Chance("tplvar_placeholder", 1, 6) {
+				vars[0] = "{{2}} or {{1}}" // text that looks like the template's own placeholders
+			}
 			a["template_variables"] = toAnyS(vars[:1+t.Pick("ntplvars", 4)])
 		}
 		if t.Chance("topic", 1, 8) {
